@@ -15,6 +15,8 @@ def run(ck, tier, seed):
         c, a, o = cases[p["id"]], casesA[p["id"]], obs[p["id"]]
         if "parse" in o:
             continue
+        if p.get("funcs"):
+            continue      # bytecode cannot call declared functions; such modules are not compiled by the product
         ck.cov["evaluations"] += 6
         for form in ("", "p"):
             base = o.get("vm0" + form)
